@@ -395,5 +395,32 @@ example :
       .file "head\nkept\n".toList := by
   decide
 
-end IV.CleanState
+/-! ### one string instead of a list
 
+`clean_content(text)` hands the WHOLE text to the parsers as one line (`cleanString`); nothing in the cleaner cuts it at
+its line breaks.  It therefore equals `clean_content([text])` (below) — and equals cleaning the physical lines one by
+one exactly as far as no parser looks across a line break, which is a property of the recognisers (`Env`), i.e. of the
+patterns: it is checked on the implementation by the correspondence stream `seam` (string route = list route = file route
+on texts whose line ends and line starts could together look like an item). -/
+
+/-- **string route = one-element list**: a non-blank result is returned as the only line, a blank or `None` result
+gives `[]`; the cleaner is left in the same state -/
+theorem cleanString_eq_single (E : Env) (cfg : Cfg) (st : St) (call : Call) (text : Str) :
+    (cleanContent E cfg st { call with lines := [text] }).1 = (cleanString E cfg st call text).1 ∧
+    (cleanContent E cfg st { call with lines := [text] }).2 =
+      (match (cleanString E cfg st call text).2 with
+       | some (c :: cs) => [c :: cs]
+       | _ => []) := by
+  have hst : stages cfg { call with lines := [text] } = stages cfg call := rfl
+  have hcl : cleanLine E cfg { call with lines := [text] } (st, call.allowlist.getD []) text =
+      cleanLine E cfg call (st, call.allowlist.getD []) text := by
+    simp only [cleanLine, hst]
+  simp only [cleanContent, cleanString, List.reverse_cons, List.reverse_nil, List.nil_append, lineLoop, hcl]
+  cases h : (cleanLine E cfg call (st, call.allowlist.getD []) text).2 with
+  | none => simp [lineLoop]
+  | some x =>
+    cases x with
+    | nil => simp [lineLoop]
+    | cons c cs => simp [lineLoop]
+
+end IV.CleanState
